@@ -272,7 +272,15 @@ def coerce_default_value(
     # variable signatures that reuse this function for fragment arguments.)
     default_input = input_value.default
     if default_input is not None:
-        coerced_value = default_input._memoized_coerced_value  # noqa: SLF001
+        # The memo is only valid for the type it was coerced for: the same default
+        # object can be shared by several schemas (an extended schema and its
+        # original) whose types of the same name differ.
+        memoized = default_input._memoized_coerced_value  # noqa: SLF001
+        coerced_value = (
+            memoized[1]
+            if memoized is not Undefined and memoized[0] is input_value.type
+            else Undefined
+        )
         if coerced_value is Undefined:
             coerced_value = (
                 coerce_input_literal(default_input.literal, input_value.type)
@@ -290,7 +298,10 @@ def coerce_default_value(
                     f" to be valid, found: {found}."
                 )
                 raise TypeError(msg)
-            default_input._memoized_coerced_value = coerced_value  # noqa: SLF001
+            default_input._memoized_coerced_value = (  # noqa: SLF001
+                input_value.type,
+                coerced_value,
+            )
         return coerced_value
 
     # The deprecated internal default value is used as is.
